@@ -116,6 +116,13 @@ pub fn encode_stream(cfg: &Verified<config::Encoder>, samples: &[i32], channels:
     .map_err(|e| format!("{e:?}"))
 }
 
+/// Stream-level entry point with an explicit end-of-input behaviour of the test source.
+pub fn encode_stream_eoi(cfg: &Verified<config::Encoder>, samples: &[i32], channels: usize, bps: usize, rate: usize, block: usize, kind: SrcKind, fill_empty_at_end: bool) -> Result<Stream, String> {
+    let mut src = TestSource::new(samples, channels, bps, rate, if kind == SrcKind::Mem { SrcKind::Int } else { kind });
+    src.fill_empty_at_end = fill_empty_at_end;
+    flacenc::encode_with_fixed_block_size(cfg, src, block).map_err(|e| format!("{e:?}"))
+}
+
 /// Frame-level assembly as documented: FrameBuf + Context + encode_fixed_size_frame + add_frame.
 pub fn encode_by_frames(cfg: &Verified<config::Encoder>, samples: &[i32], channels: usize, bps: usize, rate: usize, block: usize, kind: SrcKind) -> Result<(Stream, Vec<Frame>), String> {
     let mut src = TestSource::new(samples, channels, bps, rate, if kind == SrcKind::Mem { SrcKind::Int } else { kind });
@@ -135,6 +142,8 @@ pub fn encode_by_frames(cfg: &Verified<config::Encoder>, samples: &[i32], channe
     }
     stream.stream_info_mut().set_md5_digest(&ctx.md5_digest());
     stream.stream_info_mut().set_total_samples(ctx.total_samples());
+    // like the stream-level entry point: with a fixed block size the bounds are (block, block)
+    stream.stream_info_mut().set_block_sizes(block, block).map_err(|e| format!("{e:?}"))?;
     Ok((stream, frames))
 }
 
